@@ -16,6 +16,11 @@ import IbicusModel.Lemmas.GenIsimipFreq
 #print axioms Props.C09.qmapExtrap_all_pairs
 #print axioms Props.C09.qmapExtrap_kernel_density
 #print axioms Props.C09.qm_nonparam_mono
+#print axioms Props.C09.qmWrap_mono_signed
+#print axioms Props.C09.qm_param_mono_family_signed
+#print axioms Props.C09.qm_param_mono_signed
+#print axioms Props.C09.qm_nonparam_mono_signed
+#print axioms Props.C09.abs_rescaling_reverses
 #print axioms Props.C09.cdft_mono
 #print axioms Props.C09.cdft_mono_model
 #print axioms Props.C09.cdft_mono_kernel_density
